@@ -428,7 +428,7 @@ pub fn trap<R>(f: impl FnOnce() -> R) -> Result<R, PanicInfo> {
 
 // ----------------------------------------------------------------- selftest
 
-pub fn selftest() -> Result<(), String> {
+pub fn selftest(light: bool) -> Result<(), String> {
     // FIPS 180 vectors
     if hex(&sha1(b"abc")) != "a9993e364706816aba3e25717850c26c9cd0d89d" {
         return Err("sha1(abc)".into());
@@ -441,9 +441,12 @@ pub fn selftest() -> Result<(), String> {
     {
         return Err("sha1(448 bits)".into());
     }
-    let million = vec![b'a'; 1_000_000];
-    if hex(&sha1(&million)) != "34aa973cd4c4daa4f61eeb2bdbad27316534016f" {
-        return Err("sha1(million a)".into());
+    if !light {
+        // too slow under an interpreter; the native self-test covers it
+        let million = vec![b'a'; 1_000_000];
+        if hex(&sha1(&million)) != "34aa973cd4c4daa4f61eeb2bdbad27316534016f" {
+            return Err("sha1(million a)".into());
+        }
     }
     // RFC 4122 / python uuid.uuid5(NAMESPACE_DNS, "python.org")
     if uuid_to_string(&uuid_v5(&NAMESPACE_DNS, b"python.org")) != "886313e1-3b8a-5372-9b90-0c9aee199e5d" {
